@@ -131,7 +131,7 @@ void FileGraph::fromMem(void* m, uint64_t node_offset, uint64_t edge_offset,
       edgeData = 0;
   } else {
     uint64_t* fptr64 = (uint64_t*)fptr;
-    fptr64 += numEdges + numEdges % 2;
+    fptr64 += numEdges; // 64-bit destinations: no padding in version 2
 
     if (!lenlimit || lenlimit > numEdges + ((char*)fptr64 - (char*)m))
       edgeData = (char*)fptr64;
@@ -250,9 +250,7 @@ void* FileGraph::fromArrays(uint64_t* out_idx, uint64_t num_nodes, void* outs,
         *fptr++ = convert_htole64(((uint64_t*)outs)[i]);
     }
 
-    // padding
-    if (num_edges % 2)
-      fptr += 1;
+    // no padding: version 2 destinations are 64 bit wide
 
     fptr0 = (char*)fptr;
   }
